@@ -376,6 +376,15 @@ def c14_diag_det_zero():
     return None if ok else f"diagonal_gaussian_energy_grad at det = 0: location gradient {np.asarray(g)[:2].tolist()}, finite differences {np.round(fd, 4).tolist()}"
 
 
+def c14_diag_grad_length():
+    """regular branch of diagonal_gaussian_energy_grad: the gradient has one entry per input coordinate (the pinned tree
+    returned np.empty(6) with four cells written: two cells of uninitialised memory, and a length that depended on the branch)"""
+    import umap.distances as D
+    x, y = np.array([0.3, 0.2, 1.0, 2.0]), np.array([0.0, 0.1, 0.5, 1.0])
+    _, g = D.diagonal_gaussian_energy_grad(x.copy(), y.copy())
+    return None if np.asarray(g).shape == (4,) else f"diagonal_gaussian_energy_grad returns a gradient of shape {np.asarray(g).shape} for 4-vectors"
+
+
 def c10_csr_copy():
     import umap
     X = _rng(0).normal(size=(60, 5)).astype(np.float32)
@@ -785,6 +794,7 @@ WITNESSES = {
     "C14:hellinger_grad": c14_hellinger,
     "C14:hellinger_grad-zero-distance": c14_hellinger_zero,
     "C14:diagonal_gaussian_energy_grad-det-zero": c14_diag_det_zero,
+    "C14:diagonal_gaussian_energy_grad-shape": c14_diag_grad_length,
     "C03:pynn-only-metric-sparse-small-data": c03_pynn_sparse_small,
     "C17:short-run-pruning-depends-on-densmap": c17_short_run,
     "C14:correlation_grad-zero-centred-dot": c14_correlation_orthogonal,
